@@ -93,7 +93,7 @@ func runC05(c *Ctx) {
 	c05Verify(c, verify, adPay, epPay)
 
 	// ---- S4 record types ------------------------------------------------------------------------------
-	c05Records(c, verify)
+	c05Records(c, verify, adPay.SSA.Name(), epPay.SSA.Name())
 }
 
 func c05Payload(c *Ctx, fn *Fn, want []wantWrite, flag string) {
@@ -296,7 +296,7 @@ func c05Verify(c *Ctx, verify, adPay, epPay *Fn) {
 	c.Floor("C05.S3-ep-signer-compared", 2)
 }
 
-func c05Records(c *Ctx, verify *Fn) {
+func c05Records(c *Ctx, verify *Fn, adPayName, epPayName string) {
 	// Domain()/Codec() of the two record types
 	type rec struct{ domain, codec string }
 	recs := map[string]rec{}
@@ -327,27 +327,38 @@ func c05Records(c *Ctx, verify *Fn) {
 	a, e := recs["advSignatureRecord"], recs["epSignatureRecord"]
 	c.Check(a.domain != "" && a.domain == e.domain && a.codec != "" && e.codec != "" && a.codec != e.codec, "C05.S4-record-types", "ingest/schema › record domains and payload types", token.NoPos,
 		"both signature records use domain "+a.domain+" with distinct payload types "+a.codec+" / "+e.codec, "signature records do not have (same domain, distinct payload types): an advertisement signature could be replayed as an extended-provider signature")
-	// seal and consume use the matching record type
+	// seal: the advertisement payload goes into an advertisement record, the
+	// extended-provider payload into an extended-provider record; consume: the
+	// advertisement's signature is read into the former, an entry's into the latter
 	for _, f := range c.Funcs(schemaPkg) {
-		for _, cs := range c.Calls(f.SSA, Or(Call("record.Seal"), Call("record.ConsumeTypedEnvelope"))) {
-			isSeal := nameMatches(cs.X.Name, "record.Seal")
-			var r *X
-			if isSeal {
-				r = cs.X.Args[0]
-			} else {
-				r = cs.X.Args[1]
-			}
-			want := "advSignatureRecord"
-			// which payload is sealed / which signature consumed
-			if isSeal {
-				if f := c.CellFields(r); f["payload"] != nil {
-					want = "epSignatureRecord"
+		for _, cs := range c.Calls(f.SSA, Call("record.Seal")) {
+			recs := c.Actuals(cs.X.Args[0])
+			for _, r := range recs {
+				fs := c.CellFields(r)
+				tn := r.Name + " " + typeOfX(r)
+				key := c.short(topFunc(cs.Fn).String()) + " › seal"
+				switch {
+				case strings.Contains(tn, "advSignatureRecord"):
+					v := fs["advID"]
+					ok := v != nil && v.Op == "extract" && v.Args[0].Op == "call" && strings.HasSuffix(v.Args[0].Name, "."+adPayName)
+					c.Check(ok, "C05.S4-record-types", key+" advertisement record", cs.In.Pos(), "advertisement record sealed with the advertisement payload", "advertisement signature record is not filled with the advertisement payload")
+				case strings.Contains(tn, "epSignatureRecord"):
+					v := fs["payload"]
+					ok := v != nil && v.Op == "extract" && v.Args[0].Op == "call" && strings.HasSuffix(v.Args[0].Name, "."+epPayName)
+					c.Check(ok, "C05.S4-record-types", key+" extended-provider record", cs.In.Pos(), "extended-provider record sealed with the extended-provider payload", "extended-provider signature record is not filled with the extended-provider payload")
+				default:
+					c.Bad("C05.S4-record-types", key, cs.In.Pos(), "sealed record is neither of the two signature record types: "+abbreviate(r.String()))
 				}
-			} else if _, m := Match(Field("Signature", Op("param", "")), cs.X.Args[0]); !m {
-				want = "epSignatureRecord"
+			}
+		}
+		for _, cs := range c.Calls(f.SSA, Call("record.ConsumeTypedEnvelope")) {
+			r := cs.X.Args[1]
+			want := "epSignatureRecord"
+			if _, m := Match(Field("Signature", Op("param", "")), cs.X.Args[0]); m {
+				want = "advSignatureRecord"
 			}
 			ok := strings.HasSuffix(r.Name, want) || strings.Contains(r.String(), want)
-			c.Check(ok, "C05.S4-record-types", c.short(topFunc(cs.Fn).String())+" › "+map[bool]string{true: "seal", false: "consume"}[isSeal]+" "+want, cs.In.Pos(), "record type matches the signature kind", "wrong record type for this signature kind: "+abbreviate(r.String()))
+			c.Check(ok, "C05.S4-record-types", c.short(topFunc(cs.Fn).String())+" › consume "+want, cs.In.Pos(), "record type matches the signature kind", "wrong record type for this signature kind: "+abbreviate(r.String()))
 		}
 	}
 	c.Floor("C05.S4-record-types", 5)
